@@ -206,33 +206,42 @@ def DynDesc.symBytes (d : DynDesc) : Option Bytes := encAll d.S.Elf_Sym (d.syms.
 
 def optSize {α} (c : Con) (f : α → Nat) (x : α) : Nat := (c.sizeof.getD 0) * f x
 
-/-- the tables, each at its file offset -/
-def DynDesc.blobs (d : DynDesc) (full : Bool) : Option (List (Nat × Bytes)) := do
+/-- a relocation table at its file offset -/
+def relBlob (c : Con) : Option (List Fields × Nat) → Option (List (Nat × Bytes))
+  | some (es, o) => (encAll c (es.map .record)).map fun b => [(o, b)]
+  | none => some []
+
+/-- the relocation tables, each at its file offset -/
+def DynDesc.relBlobs (d : DynDesc) : Option (List (Nat × Bytes)) := do
   let S := d.S
-  let tb ← d.tagBytes
-  let sb ← d.symBytes
-  let rel ← match d.rel with
-    | some (es, o) => do pure [(o, ← encAll S.Elf_Rel (es.map .record))]
-    | none => pure []
-  let rela ← match d.rela with
-    | some (es, o) => do pure [(o, ← encAll S.Elf_Rela (es.map .record))]
-    | none => pure []
+  let rel ← relBlob S.Elf_Rel d.rel
+  let rela ← relBlob S.Elf_Rela d.rela
   let jmp ← match d.jmprel with
-    | some (isRela, es, o) => do pure [(o, ← encAll (if isRela then S.Elf_Rela else S.Elf_Rel) (es.map .record))]
-    | none => pure []
+    | some (isRela, es, o) => relBlob (if isRela then S.Elf_Rela else S.Elf_Rel) (some (es, o))
+    | none => some []
   let relr := match d.relr with
     | some (ws, o) => [(o, encWords d.le d.w ws)]
     | none => []
-  let sysv := match d.sysv with
+  pure (rel ++ rela ++ jmp ++ relr)
+
+/-- the hash tables, each at its file offset -/
+def DynDesc.hashBlobs (d : DynDesc) : List (Nat × Bytes) :=
+  (match d.sysv with
     | some (h, o) => [(o, h.enc d.le)]
-    | none => []
-  let gnu := match d.gnu with
+    | none => []) ++
+  (match d.gnu with
     | some (h, o) => [(o, h.enc d.le d.w)]
-    | none => []
+    | none => [])
+
+/-- the tables, each at its file offset -/
+def DynDesc.blobs (d : DynDesc) (full : Bool) : Option (List (Nat × Bytes)) := do
+  let tb ← d.tagBytes
+  let sb ← d.symBytes
+  let rs ← d.relBlobs
   let copy := match full, d.secDynOff with
     | true, some o => [(o, tb)]
     | _, _ => []
-  pure ([(d.dynOff, tb), (d.strOff, d.strtab), (d.symOff, sb)] ++ rel ++ rela ++ jmp ++ relr ++ sysv ++ gnu ++ copy)
+  pure ([(d.dynOff, tb), (d.strOff, d.strtab), (d.symOff, sb)] ++ rs ++ d.hashBlobs ++ copy)
 
 /-! ### the two layouts -/
 
@@ -247,34 +256,48 @@ def secHdr (ty flags addr off size link info align entsize : Nat) : Fields :=
    ("sh_size", .int size), ("sh_link", .int link), ("sh_info", .int info), ("sh_addralign", .int align),
    ("sh_entsize", .int entsize)]
 
+def secNull : SecDesc := ⟨[], secHdr 0 0 0 0 0 0 0 0 0, none, 0⟩
+def secDecoy : SecDesc := ⟨nm ".decoy", secHdr 1 0 0 0 0 0 0 1 0, none, 36⟩
+def DynDesc.secDynstr (d : DynDesc) : SecDesc :=
+  ⟨nm ".dynstr", secHdr 3 2 (firstVal d.live DT_STRTAB |>.getD 0) d.strOff d.strtab.length 0 0 1 0, none, 1⟩
+def DynDesc.secDynsym (d : DynDesc) : SecDesc :=
+  let symsz := d.S.Elf_Sym.sizeof.getD 0
+  ⟨nm ".dynsym", secHdr 11 2 (firstVal d.live DT_SYMTAB |>.getD 0) d.symOff (d.syms.length * symsz) (d.decoys + 1) 1 d.w symsz, none, 9⟩
+def DynDesc.secDynamic (d : DynDesc) : SecDesc :=
+  let dynsz := d.S.Elf_Dyn.sizeof.getD 0
+  ⟨nm ".dynamic", secHdr 6 3 0 (d.secDynOff.getD d.dynOff) (d.tags.length * dynsz) (d.decoys + 1) 0 d.w dynsz, none, 17⟩
+/-- the section-name table is the body of `.shstrtab` (so that the container is a complete ELF
+    description in the sense of C01: `ElfDesc.namesOk`) -/
+def DynDesc.secShstrtab (d : DynDesc) : SecDesc :=
+  ⟨nm ".shstrtab", secHdr 3 0 0 d.shstrOff shstrBody.length 0 0 1 0, some shstrBody, 26⟩
+
 /-- sections of the full layout: null, decoys, .dynstr, .dynsym, .dynamic, .shstrtab -/
 def DynDesc.sections (d : DynDesc) : List SecDesc :=
-  let k := d.decoys
-  let symsz := d.S.Elf_Sym.sizeof.getD 0
-  let dynsz := d.S.Elf_Dyn.sizeof.getD 0
-  [⟨[], secHdr 0 0 0 0 0 0 0 0 0, none, 0⟩]
-  ++ List.replicate k ⟨nm ".decoy", secHdr 1 0 0 0 0 0 0 1 0, none, 36⟩
-  ++ [⟨nm ".dynstr", secHdr 3 2 (firstVal d.live DT_STRTAB |>.getD 0) d.strOff d.strtab.length 0 0 1 0, none, 1⟩,
-      ⟨nm ".dynsym", secHdr 11 2 (firstVal d.live DT_SYMTAB |>.getD 0) d.symOff (d.syms.length * symsz) (k + 1) 1 d.w symsz, none, 9⟩,
-      ⟨nm ".dynamic", secHdr 6 3 0 (d.secDynOff.getD d.dynOff) (d.tags.length * dynsz) (k + 1) 0 d.w dynsz, none, 17⟩,
-      ⟨nm ".shstrtab", secHdr 3 0 0 d.shstrOff shstrBody.length 0 0 1 0, none, 26⟩]
+  secNull :: (List.replicate d.decoys secDecoy ++ [d.secDynstr, d.secDynsym, d.secDynamic, d.secShstrtab])
 
+/-- the container as an abstract ELF image (Spec/ElfImage.lean, C01): file header, program headers
+    and — in the full layout — the section header table with the section-name table -/
 def DynDesc.container (d : DynDesc) (full : Bool) : ElfDesc :=
   { cls := d.cls, le := d.le, mclass := d.mclass, solaris := d.solaris, core := false, ehdr := d.ehdr,
     shoff := d.shoff, phoff := d.phoff, shentsize := d.shentsize, phentsize := d.phentsize,
     sections := if full then d.sections else [], segments := d.segments,
     shstrndx := if full then d.decoys + 4 else 0 }
 
+/-- the regions of the image: the container's (C01's `ElfDesc.regions`) and the dynamic tables -/
 def DynDesc.regions (d : DynDesc) (full : Bool) : Option (List (Nat × Bytes)) := do
   let c ← (d.container full).regions
   let b ← d.blobs full
-  let names := if full then [(d.shstrOff, shstrBody)] else []
-  pure (c ++ (b ++ names).filter (fun r => !r.2.isEmpty))
+  pure (c ++ b.filter (fun r => !r.2.isEmpty))
 
 /-- the image: `full = true` with a section header table, `false` with `e_shoff = 0` -/
 def DynDesc.assemble (d : DynDesc) (full : Bool) : Option Bytes := do
   let rs ← d.regions full
   pure (layOut (sortRegions rs) [])
+
+/-- a byte string carries the description in the given layout: every region's bytes sit at its
+    offset; nothing else about the string is constrained (cf. `Spec.Layout`) -/
+def DynLayout (d : DynDesc) (full : Bool) (bytes : Bytes) : Prop :=
+  ∃ rs, d.regions full = some rs ∧ ∀ r ∈ rs, readN bytes r.1 r.2.length = r.2
 
 /-! ### what must be reported -/
 
@@ -396,5 +419,12 @@ def DynDesc.wf (env : Env) (d : DynDesc) (full : Bool) : Bool :=
   (match d.secDynOff with | some o => o != d.dynOff | none => true) &&
   decide (d.decoys + 5 < 0xff00) && decide (d.segments.length < 0xffff) &&
   decide ((d.phdrs env).length = d.segments.length)
+
+/-- well-formedness of a description as a pair of images: the dynamic information is well formed
+    in both layouts (`DynDesc.wf`) and each layout's container is a well-formed ELF description in
+    the sense of C01 (`ElfDesc.wf`: known machine class, header consistent with it, table entry
+    sizes and offsets, section names, links) -/
+def DynDesc.WF (env : Env) (d : DynDesc) : Bool :=
+  d.wf env true && d.wf env false && (d.container true).wf env && (d.container false).wf env
 
 end PyElf.Spec.Dynamic
